@@ -226,7 +226,24 @@ impl<'a> LoweringManager<'a> {
             }
           })
           .collect_vec();
-        let statements = self.lower_stmt_block(statements);
+        let mut statements = self.lower_stmt_block(statements);
+        // Loop variables are assigned one after another at the end of each iteration,
+        // so a loop value that reads a loop variable assigned before it must be saved first.
+        let mut loop_variables = loop_variables;
+        for i in 1..loop_variables.len() {
+          if let lir::Expression::Variable(n, t) = &loop_variables[i].loop_value
+            && loop_variables[..i].iter().any(|earlier| earlier.name.eq(n))
+          {
+            let (n, t) = (*n, t.clone());
+            let temp = self.heap.alloc_temp_str();
+            statements.push(lir::Statement::Cast {
+              name: temp,
+              type_: t.clone(),
+              assigned_expression: lir::Expression::Variable(n, t.clone()),
+            });
+            loop_variables[i].loop_value = lir::Expression::Variable(temp, t);
+          }
+        }
         let break_collector = if let Some(mir::VariableName { name, type_ }) = break_collector {
           Some((name, self.lower_type(type_)))
         } else {
